@@ -468,6 +468,9 @@ class Spec:
     def clause(self, case, obs) -> str:  # names what failed (for known-findings matching)
         return ''
 
+    def known_class(self, case, obs):    # clause of a LISTED finding this observation is an instance of
+        return None
+
     def describe(self, case, obs) -> str:
         return ''
 
@@ -477,13 +480,33 @@ def evaluate(run: Run, spec: Spec, cases: list, tag: str = ''):
     if not cases:
         return []
     obs = spec.run_impl(cases)
-    terms = [spec.emit(c, o) for c, o in zip(cases, obs)]
-    verdicts, stats = coq_verdicts(run.prop + tag, spec.imports, spec.case_type, spec.verdict_fn,
-                                   terms, shard=spec.shard, extra_defs=spec.extra_defs)
-    stats['cases'] = len(cases)
-    run.coq_stats.append(stats)
-    run.add_obligation(all(ch in 'A' for ch in verdicts), stats['files'])
-    return list(zip(cases, obs, verdicts))
+    # Instances of a finding that is LISTED as open in known_findings.json are reported as such
+    # (KNOWN-FINDING, see Run.finish) and are not obligations of this run; if the finding is not
+    # listed (any more) they go through the model like every other case and become violations.
+    open_clauses = {f.get('match', {}).get('clause') for f in load_findings(run.prop)
+                    if f.get('status') == 'open'}
+    known = {}
+    for i, (c, o) in enumerate(zip(cases, obs)):
+        kc = spec.known_class(c, o)
+        if kc is not None and kc in open_clauses:
+            known[i] = kc
+            run.violation('monitor', dict(case=c, observed=o), spec.describe(c, o), clause=kc, concrete=True)
+    idx = [i for i in range(len(cases)) if i not in known]
+    terms = [spec.emit(cases[i], obs[i]) for i in idx]
+    if terms:
+        verdicts, stats = coq_verdicts(run.prop + tag, spec.imports, spec.case_type, spec.verdict_fn,
+                                       terms, shard=spec.shard, extra_defs=spec.extra_defs)
+        stats['cases'] = len(terms)
+        run.coq_stats.append(stats)
+        run.add_obligation(all(ch in 'A' for ch in verdicts), stats['files'])
+    else:
+        verdicts = ''
+    full = ['K'] * len(cases)
+    for i, ch in zip(idx, verdicts):
+        full[i] = ch
+    if known:
+        run.distribution['instances_of_listed_findings'] = run.distribution.get('instances_of_listed_findings', 0) + len(known)
+    return list(zip(cases, obs, full))
 
 
 def standard_flow(run: Run, spec: Spec, cases: list, max_shrink_rounds: int = 12,
@@ -491,11 +514,11 @@ def standard_flow(run: Run, spec: Spec, cases: list, max_shrink_rounds: int = 12
     results = evaluate(run, spec, cases)
     for case, obs, ch in results:
         run.add_case(case, spec.nontrivial(case, obs))
-    for ch in 'ARVX':
+    for ch in 'ARVXK':
         n = sum(1 for r in results if r[2] == ch)
         if n:
             run.count('verdict_' + ch, n)
-    bad = [r for r in results if r[2] != 'A']
+    bad = [r for r in results if r[2] not in 'AK']
     if not bad:
         return results
     if any(ch == 'X' for _, _, ch in bad):
